@@ -119,15 +119,18 @@ fn build_specification(guard: &StringGuard) -> Result<Option<Specification>, syn
             let has_trim = relevant_sanitizers
                 .iter()
                 .any(|s| matches!(s, RelevantSanitizer::Trim));
+            // NOTE: both `len_char_min` and `not_empty` impose a minimal length, the effective
+            // one is the largest of them (`not_empty` must not shadow a bigger `len_char_min`).
             let min_len = relevant_validators
                 .iter()
-                .find_map(|v| {
+                .filter_map(|v| {
                     if let RelevantValidator::LenCharMin(value) = v {
                         Some(value.clone())
                     } else {
                         None
                     }
                 })
+                .reduce(max_len)
                 .unwrap_or_else(|| ValueOrExpr::Value(0));
             let max_len = relevant_validators
                 .iter()
@@ -147,6 +150,14 @@ fn build_specification(guard: &StringGuard) -> Result<Option<Specification>, syn
             };
             Ok(Some(spec))
         }
+    }
+}
+
+/// Returns the largest of two lengths.
+fn max_len(a: ValueOrExpr<usize>, b: ValueOrExpr<usize>) -> ValueOrExpr<usize> {
+    match (a, b) {
+        (ValueOrExpr::Value(a), ValueOrExpr::Value(b)) => ValueOrExpr::Value(a.max(b)),
+        (a, b) => ValueOrExpr::Expr(syn::parse_quote!(::core::cmp::max(#a, #b))),
     }
 }
 
